@@ -72,12 +72,14 @@ template<> struct ValueMap<std::string> {
 /// Independent computation of the capacities from the constructor arguments (not from the container's helpers).
 struct Capacities {
     size_t base, eff_buffer_level, index_level;
+    size_t bl_arg = 0, il_arg = 0; ///< the constructor arguments as given (0 = library default)
     std::vector<size_t> pw; // base^i, saturating
     Capacities(size_t base_, size_t buffer_level, size_t index_level_arg) : base(base_) {
         auto log_base_ceil = [&](double x) { size_t l = 0; double p = 1; while (p < x) { p *= (double) base; ++l; } return l; };
         eff_buffer_level = buffer_level ? buffer_level : log_base_ceil(128) - (base == 2 ? 1 : 0);
         size_t dflt_index = log_base_ceil(16777216.0);
         index_level = std::max(eff_buffer_level + 1, index_level_arg ? index_level_arg : dflt_index);
+        bl_arg = buffer_level; il_arg = index_level_arg;
         size_t p = 1;
         for (int i = 0; i < 70; ++i) { pw.push_back(p); p = (p > (size_t(1) << 60) / base) ? (size_t(1) << 62) : p * base; }
     }
@@ -336,12 +338,19 @@ struct DynClass {
     }
 
     /// C15: the LSM invariants, from the private layout (hook H3) and an independent capacity computation.
-    static void check_shape(const Dyn &d, const Capacities &cap, const sim::Env &env, Outcome &out, Stats &st, Trace &tr) {
+    static void check_shape(const Dyn &d, const Capacities &cap_in, const sim::Env &env, Outcome &out, Stats &st, Trace &tr) {
         const auto &levels = Access::levels(d);
         const auto &pgms = Access::pgms(d);
         size_t minl = Access::min_level(d), used = Access::used_levels(d), mil = Access::min_index_level(d);
-        if (minl != cap.eff_buffer_level) { out.fail("buffer-level", "buffer level " + std::to_string(minl) + " differs from the one implied by the constructor arguments " + std::to_string(cap.eff_buffer_level)); return; }
-        if (mil != cap.index_level) { out.fail("index-level", "index level " + std::to_string(mil) + " differs from the one implied by the constructor arguments " + std::to_string(cap.index_level)); return; }
+        // What the caller asked for binds; what it left to the library's defaults does not (C15 speaks of "buffer_level" and
+        // "the index level", not of the default heuristics): an explicit buffer_level must be honoured exactly, an explicit
+        // index_level means that indexes start no higher than requested (more indexes than asked for are harmless).
+        Capacities cap = cap_in;
+        if (cap.bl_arg == 0) cap.eff_buffer_level = minl;
+        else if (minl != cap.eff_buffer_level) { out.fail("buffer-level", "buffer level " + std::to_string(minl) + " differs from the requested " + std::to_string(cap.eff_buffer_level)); return; }
+        if (cap.il_arg == 0) cap.index_level = mil;
+        else if (mil > std::max(minl + 1, cap.il_arg)) { out.fail("index-level", "indexes start at level " + std::to_string(mil) + ", above the requested index level " + std::to_string(cap.il_arg)); return; }
+        cap.index_level = mil;
         size_t levels_with_data = 0;
         for (size_t li = 0; li < levels.size(); ++li) {
             size_t lvl = li + minl;
@@ -410,7 +419,7 @@ struct DynClass {
     /// The "huge" scale slot: bulk-load n0 entries (they land in level L), insert `count` further distinct keys, judging the
     /// level sizes after every insert, the full shape at the end and a sample of lookups. No std::map model: keys and values
     /// are given by formulas.
-    static Outcome run_huge(const CfgEntry &ce, const PlanText &p, const Op &o, const Capacities &cap, const sim::Env &env, Stats &st) {
+    static Outcome run_huge(const CfgEntry &ce, const PlanText &p, const Op &o, const Capacities &cap_in, const sim::Env &env, Stats &st) {
         Outcome out;
         Trace tr;
         const size_t L = (size_t) o.a[0], n0 = (size_t) o.a[1], count = (size_t) o.a[2];
@@ -426,10 +435,12 @@ struct DynClass {
             bulk.reserve(n0);
             for (size_t i = 0; i < n0; ++i) bulk.emplace_back(bulk_key(i), VM::make(i + 1));
             sim::begin_run(env);
-            try { X.reset(new Dyn(bulk.begin(), bulk.end(), (uint8_t) cap.base, (uint8_t) p.get_u("buffer_level", 0), (uint8_t) p.get_u("index_level", 0))); }
+            try { X.reset(new Dyn(bulk.begin(), bulk.end(), (uint8_t) cap_in.base, (uint8_t) p.get_u("buffer_level", 0), (uint8_t) p.get_u("index_level", 0))); }
             catch (const std::exception &e) { sim::end_run(); out.fail("ctor-exception", std::string("bulk-load of a sorted range threw: ") + e.what()); out.trace_hash = tr.h; return out; }
         }
         const size_t minl = Access::min_level(*X);
+        Capacities cap = cap_in;
+        if (cap.bl_arg == 0) cap.eff_buffer_level = minl; // a default buffer size is the library's business
         auto sizes_ok = [&](size_t step) {
             const auto &levels = Access::levels(*X);
             size_t used = Access::used_levels(*X), total = 0;
